@@ -68,9 +68,10 @@ def _exits(body):
     return bool(body) and isinstance(body[-1], (ast.Continue, ast.Return, ast.Raise, ast.Break))
 
 
-def derefs(fnode, map_pred):
+def derefs(fnode, map_pred, iter_facts=None):
     """Every `M[K]` load in the function whose map expression satisfies map_pred(normalised source).
-    Returns [(node, key_src, map_src, guarded: bool, how)]."""
+    Returns [(node, key_src, map_src, guarded: bool, how)].  `iter_facts(generator)` may supply (key, map) pairs known for the
+    elements a comprehension draws from its iterable (a filtering generator helper)."""
     al = aliases(fnode)
     res = []
 
@@ -93,6 +94,8 @@ def derefs(fnode, map_pred):
             f2 = set(facts)
             for g in node.generators:
                 visit(g.iter, f2)
+                if iter_facts is not None:
+                    f2 |= set(iter_facts(g))
                 for c in g.ifs:
                     for k, m, p in _membership(c, al):
                         if p:
